@@ -8,16 +8,24 @@
 
 pub mod keys;
 pub mod out;
+pub mod sched;
 
 use std::path::PathBuf;
 
 /// Fresh scratch directory under $VERIF_WORK (default: /verif/work/tmp).
 pub fn scratch_dir(tag: &str) -> tempfile::TempDir {
-	let base = std::env::var("VERIF_WORK").map(PathBuf::from).unwrap_or_else(|_| {
-		let mut p = std::env::current_dir().unwrap();
-		p.push("work");
-		p.push("tmp");
-		p
+	// tmpfs when available (thousands of short-lived databases), else $VERIF_WORK, else ./work/tmp
+	let base = std::env::var("VERIF_SCRATCH").map(PathBuf::from).unwrap_or_else(|_| {
+		let shm = PathBuf::from("/dev/shm");
+		if shm.is_dir() && std::fs::create_dir_all(shm.join("verif-scratch")).is_ok() {
+			return shm.join("verif-scratch");
+		}
+		std::env::var("VERIF_WORK").map(PathBuf::from).unwrap_or_else(|_| {
+			let mut p = std::env::current_dir().unwrap();
+			p.push("work");
+			p.push("tmp");
+			p
+		})
 	});
 	std::fs::create_dir_all(&base).expect("create scratch base");
 	tempfile::Builder::new().prefix(tag).tempdir_in(base).expect("create scratch dir")
